@@ -71,6 +71,41 @@ static int cmd_lr(int, char**) {
           first[n] = f;
         }
         out["first"] = first;
+        // the same grammar written into a plain Grammar with explicit epsilon symbols (an empty alternative is {eps}; with "eps" every
+        // symbol is surrounded by epsilons): FIRST must be the same sets, and first() of strings made of epsilons the textbook ones
+        Grammar P0;
+        auto pS = P0.createNonTerminal(); auto pA = P0.createNonTerminal(); auto pB = P0.createNonTerminal(); auto pC = P0.createNonTerminal();
+        auto psym = [&](const std::string& c) -> Grammar::Symbol {
+          if (c == "S") return pS;
+          if (c == "A") return pA;
+          if (c == "B") return pB;
+          if (c == "C") return pC;
+          return Grammar::Symbol::Terminal(c == "a" ? 1 : 2);
+        };
+        bool eps = in.value("eps", false);
+        for (auto& r : in["rules"]) {
+          Grammar::Alternative alt;
+          if (eps || r["r"].empty()) alt.push_back(Grammar::Symbol::Epsilon());
+          for (auto& x : r["r"]) { alt.push_back(psym(x.get<std::string>())); if (eps) alt.push_back(Grammar::Symbol::Epsilon()); }
+          P0.right_sides[psym(r["l"].get<std::string>())].push_back(alt);
+        }
+        P0.calculateFirstSets();
+        auto names = [&](const std::set<Grammar::Symbol>& st) {
+          json f = json::array();
+          for (auto& x : st) {
+            if (x.t == Grammar::Symbol::EPSILON) f.push_back("eps");
+            else if (x.t == Grammar::Symbol::TERMINAL) f.push_back(x.index == 1 ? "a" : x.index == 2 ? "b" : "?");
+          }
+          return f;
+        };
+        json fp;
+        for (const char* n : {"S", "A", "B", "C"}) {
+          auto it = P0.first_sets.find(psym(n));
+          fp[n] = it == P0.first_sets.end() ? json::array() : names(it->second);
+        }
+        out["first_plain"] = fp;
+        out["first_of_eps"] = names(P0.first({Grammar::Symbol::Epsilon()}));
+        out["first_of_eps_a"] = names(P0.first({Grammar::Symbol::Epsilon(), Grammar::Symbol::Terminal(1)}));
       }
       LRParser<std::string, int> P(G, prefix, [](int t) { return Grammar::Symbol::Terminal(t); },
                                    [](int t) { return std::string(t == 1 ? "a" : t == 2 ? "b" : "$"); }, S, Grammar::Symbol::Terminal(0));
@@ -83,7 +118,8 @@ static int cmd_lr(int, char**) {
       if (gr.empty()) {
         for (auto& w : in["inputs"]) {
           std::vector<int> toks;
-          for (auto& c : w) toks.push_back(c.get<std::string>() == "a" ? 1 : 2);
+          // "c" is a terminal the grammar does not mention (index 7), "n" one with a negative index
+          for (auto& c : w) { std::string x = c.get<std::string>(); toks.push_back(x == "a" ? 1 : x == "b" ? 2 : x == "c" ? 7 : -3); }
           toks.push_back(0);
           auto res = P.parse(toks);
           bool acc = res.t == res.ACCEPT;
